@@ -71,7 +71,11 @@ func (m *Machine) callBuiltin(caller *frame, pos token.Pos, fn *ssa.Builtin, arg
 			return m.ts.BV(uint64(n), 64)
 		}
 	case "close":
-		m.chanClose(args[0].(*Chan))
+		if m.schedOn() {
+			m.schedClose(caller, args[0].(*Chan))
+		} else {
+			m.chanClose(args[0].(*Chan))
+		}
 		return nil
 	case "delete":
 		m.mapDelete(args[0].(*Map), args[1])
@@ -512,7 +516,69 @@ func (m *Machine) callVN(caller *frame, name string, fn *ssa.Function, args []Va
 		m.call(caller, token.NoPos, args[1], nil)
 		m.path.thread = 0
 		return nil
+	case "SchedStart":
+		m.path.sched = true
+		m.cur.parked = false
+		return nil
+	case "SchedStop":
+		m.path.sched = false
+		return nil
+	case "SchedQuiesce":
+		if !m.schedOn() {
+			m.drain()
+			return nil
+		}
+		m.schedQuiesce(caller)
+		return nil
+	case "SnapshotBaseline":
+		m.path.snapBase = len(m.gor)
+		return nil
+	case "SnapshotGoroutines":
+		m.snapshotGoroutines()
+		return nil
+	case "Live":
+		sub, okS := args[0].(Str).Concrete()
+		op, okO := args[1].(Str).Concrete()
+		if !okS || !okO {
+			m.unsupported("vn.Live with symbolic arguments")
+		}
+		return ts.BV(uint64(m.liveCount(sub, op)), 64)
+	case "ChanSink":
+		if ch, ok := args[0].(Iface).V.(*Chan); ok && ch != nil {
+			ch.Sink = true
+		} else {
+			m.unsupported("vn.ChanSink of a non-channel")
+		}
+		return nil
+	case "ChanDoneOnly":
+		if ch, ok := args[0].(Iface).V.(*Chan); ok && ch != nil {
+			ch.DoneOnly = true
+		} else {
+			m.unsupported("vn.ChanDoneOnly of a non-channel")
+		}
+		return nil
+	case "RaceDetect":
+		// everything done so far happens-before everything that follows
+		m.path.raceOn = true
+		m.path.shadows = nil
+		var all vclock
+		for _, g := range m.gor {
+			all = joinVC(all, g.vc)
+		}
+		for _, g := range m.gor {
+			g.vc = all.copyVC()
+			g.tick()
+		}
+		return nil
+	case "Races":
+		return ts.BV(uint64(len(m.path.races)), 64)
 	case "RaceFree":
+		if m.path.raceOn {
+			if len(m.path.races) > 0 {
+				m.path.lastPanic = "data race: " + m.path.races[0]
+			}
+			return ts.Bool(len(m.path.races) == 0)
+		}
 		// no two accesses from different threads to one watched cell with a write among them
 		// unless both are atomic
 		free := true
@@ -558,6 +624,30 @@ func (m *Machine) callVN(caller *frame, name string, fn *ssa.Function, args []Va
 		return nil
 	case "ReadCount":
 		return ts.BV(uint64(m.path.readRunes), 64)
+	case "CaptureBegin":
+		m.path.outputs = nil
+		return nil
+	case "CaptureEnd":
+		var out []Value
+		for _, s := range m.path.outputs {
+			// one entry per printed line (the trailing newline is dropped)
+			if cs, ok := s.Concrete(); ok {
+				for _, l := range strings.Split(cs, "\n") {
+					if l != "" {
+						out = append(out, mkStr(l))
+					}
+				}
+				continue
+			}
+			if n := len(s.parts); n > 0 && s.parts[n-1].r == nil && s.parts[n-1].t == nil && strings.HasSuffix(s.parts[n-1].s, "\n") {
+				ps := append([]spart(nil), s.parts...)
+				ps[n-1].s = strings.TrimSuffix(ps[n-1].s, "\n")
+				s = Str{ps}
+			}
+			out = append(out, s)
+		}
+		m.path.outputs = nil
+		return Slice{A: out}
 	case "Outputs":
 		out := make([]Value, len(m.path.outputs))
 		for i, s := range m.path.outputs {
